@@ -226,6 +226,9 @@ func (w *workerProc) ask(prop string, c Case) (string, error) {
 	}
 }
 
+// wireForm renders a locally computed transcript the way a worker's answer arrives (one line).
+func wireForm(s string) string { return strings.ReplaceAll(s, "\n", "\\n") }
+
 func (w *workerProc) stop() {
 	w.mu.Lock()
 	defer w.mu.Unlock()
